@@ -460,6 +460,25 @@ pub fn arbitrary_stream(rng: &mut Rng, m: &Model, max: usize) -> Vec<u8> {
                 v.extend_from_slice(t)
             }
             10 => v.push(rng.byte()),
+            _ if rng.chance(1, 3) => {
+                // identifier of arbitrary length and case, sometimes as a common command
+                if rng.chance(1, 3) {
+                    v.push(b'*');
+                }
+                let n = *rng.pick(&[1usize, 4, 5, 11, 12, 13, 16, 17, 18, 19, 20, 33]);
+                for _ in 0..n {
+                    v.push(*rng.pick(b"abcdefghijklmnopqrstuvwxyzABCDEFGHIJKLMNOPQRSTUVWXYZ019_"));
+                }
+            }
+            _ if rng.chance(1, 2) => {
+                // a mnemonic of the interface in lower or mixed case
+                let sp = rng.pick(&m.spelled);
+                let x = rng.pick(&sp.path);
+                let lower = rng.chance(1, 2);
+                for b in x.bytes() {
+                    v.push(if lower || rng.chance(1, 2) { b.to_ascii_lowercase() } else { b });
+                }
+            }
             _ => v.push(*rng.pick(b"abcXYZ_09 \n")),
         }
     }
